@@ -109,7 +109,8 @@ theorem sfacts_of_supported {a : Ast} (hs : Supported a = true) : SFacts a := by
     intro t ht
     have h4 := this.2
     rw [ht] at h4
-    simpa using h4
+    simp only [Bool.and_eq_true, beq_iff_eq] at h4
+    exact h4.1
   refine ⟨hkn, ?_, ?_, ?_, ?_, ?_⟩
   · intro n ty hb
     exact (List.all_eq_true.mp htypes) (n, ty) (bget_mem hb)
